@@ -80,10 +80,14 @@ CHECKS = {
             "pkg": ODB, "funcs": ["VerifC18CloseDuringOpen"],
             "covers": {"VerifC18CloseDuringOpen": ["closed-during-open", "create-returned-a-store"]},
         }, {
+            "pkg": ODB, "funcs": ["VerifC18StaleHandle"],
+            "covers": {"VerifC18StaleHandle": ["stale-handle-closed-again", "instance-closed", "dropped", "new-instance", "local-only-open-after-drop", "create-after-drop"]},
+        }, {
             "pkg": OOO, "funcs": ["VerifC18ConnectCancelled"],
             "covers": {"VerifC18ConnectCancelled": ["waiting-for-the-peer", "caller-context-ended"]},
         }],
         "assumptions": [
+            "stale handles and dropped databases (VerifC18StaleHandle, event log / key-value / document store): a handle is closed, the database reopened on the same instance, the stale handle closed again once or twice: no error, its CloseFunc is not run again, the live handle stays registered, writable, and is closed by the Close of the instance with nothing left running; after Drop a local-only open is refused and a new Create is accepted with the same address, on the same instance or a new one over the same directory",
             "pending head exchange (VerifC18ConnectCancelled, package oneonone): the real pairwise Connect waits for a peer that never shows up on the pairwise topic; the caller's (the store's) context ends: Connect returns and nothing keeps polling (virtual time)",
             "instance closed during an open (VerifC18CloseDuringOpen): Close is called while a Create's store constructor is still running (a constructor that waits); once both have returned no store or instance goroutine is left, closing again returns",
             "Drop at any moment (VerifC18DropDuring): Drop is started at ANY visible step of a local write or of a replication; Drop and the interrupted operation return, Close after Drop and a later write / load / second Drop return, no store goroutine is left",
@@ -113,6 +117,9 @@ CHECKS = {
             "pkg": ODB, "funcs": ["VerifC14Reuse"],
             "covers": {"VerifC14Reuse": ["created-with-reused-values", "opened-with-the-same-options", "opened-another-type-with-reused-options"]},
         }, {
+            "pkg": ODB, "funcs": ["VerifC18StaleHandle"],
+            "covers": {"VerifC18StaleHandle": ["dropped", "new-instance", "local-only-open-after-drop", "create-after-drop"]},
+        }, {
             "pkg": ROOT, "funcs": ["VerifC14Helpers"],
             "covers": {"VerifC14Helpers": ["created", "reopened"]},
         }, {
@@ -122,6 +129,7 @@ CHECKS = {
             "covers": {"VerifC14AddressRoundTrip": ["parsed", "refused"]},
         }],
         "assumptions": [
+            "stale handles and dropped databases (VerifC18StaleHandle, event log / key-value / document store): a handle is closed, the database reopened on the same instance, the stale handle closed again once or twice: no error, its CloseFunc is not run again, the live handle stays registered, writable, and is closed by the Close of the instance with nothing left running; after Drop a local-only open is refused and a new Create is accepted with the same address, on the same instance or a new one over the same directory",
             "spellings: the printed address with a trailing slash, opened with Create:true as the typed helpers do, opens the SAME database or is refused, and parses to the same root and path",
             "the reused options value is also used to OPEN a database of another type and write list (created with fresh values): the opened store has the recorded type and write list",
             "real orbitDB instances (newOrbitDB, DetermineAddress, Create, Open, createStore, haveLocalData, addManifestToCache), the real manifest code, acutils, the real ipfs access controller Save/Load, address.Parse/IsValid, the real path.Join/Clean and the real cache manager (cacheleveldown) over a disk model",
@@ -177,13 +185,14 @@ CHECKS = {
     "C03": {
         "groups": [{
             "pkg": BS, "funcs": ["VerifC03Forged", "VerifC03LocalWrite"],
-            "covers": {"VerifC03Forged": ["as-head", "as-ancestor", "as-foreign-ref", "id-swap", "spoofed-address-first"], "VerifC03LocalWrite": ["allowed", "denied", "denied-twice"]},
+            "covers": {"VerifC03Forged": ["as-head", "as-ancestor", "as-foreign-ref", "id-swap", "spoofed-address-first", "restarted-and-loaded"], "VerifC03LocalWrite": ["allowed", "denied", "denied-twice"]},
         }, {"cross_solvers": ["cvc5", "z3-new"], "pkg": ACI, "funcs": ["VerifC03CanAppend"], "covers": {"VerifC03CanAppend": ["decided", "after-genuine"]}},
            {"cross_solvers": ["cvc5", "z3-new"], "pkg": ACS, "funcs": ["VerifC03CanAppend"], "covers": {"VerifC03CanAppend": ["decided", "after-genuine"]}},
            {"pkg": ACO, "funcs": ["VerifC03CanAppend"], "covers": {"VerifC03CanAppend": ["decided", "after-genuine"]}},
            {"pkg": ODB, "funcs": ["VerifC03Instance"],
             "covers": {"VerifC03Instance": ["created", "via-sync", "via-direct-channel", "via-topic", "delivered", "local-write-refused", "opener-passes-own-list", "opener-reuses-parameters", "spoofed-address-first"]}}],
         "assumptions": [
+            "restart epilogue (VerifC03Forged): after the delivery the replica is closed, reopened over the same cache and block store with the same write list and loaded; the forged entry (still in the block store, possibly linked from a cached head) is not in log or view",
             "write lists with an EMPTY entry, a truncated id or an id with a suffix (concrete cases, replayable natively): they name nobody",
             "a refused local write is repeated: the second attempt returns an error too (nothing, not even a lock, is left behind) and the replication status is untouched",
             "the non-writer opens the restricted database passing access-controller parameters of its own (an explicit list naming itself, or a value it used before to create its own database): the opened store reports and enforces the list recorded at creation",
@@ -200,7 +209,7 @@ CHECKS = {
     "C04": {
         "groups": [{
             "cross_solvers": ["cvc5", "z3-new"], "pkg": BS, "funcs": ["VerifC04Tampered"],
-            "covers": {"VerifC04Tampered": ["as-head", "as-ancestor", "codec-alias", "as-refs-ancestor-behind-held-entries"]},
+            "covers": {"VerifC04Tampered": ["as-head", "as-ancestor", "codec-alias", "as-refs-ancestor-behind-held-entries", "twin-block-through-link"]},
         }, {
             "pkg": BS, "funcs": ["VerifC04ForeignChain"],
             "params": {"quick": {"F": 3, "H": 3}, "thorough": {"F": 5, "H": 4}},
@@ -210,6 +219,7 @@ CHECKS = {
             "covers": {"VerifC04Snapshot": ["snapshot-rewritten", "impersonates-an-ancestor", "impersonates-the-head", "loaded"], "VerifC04SnapshotAfterReject": ["rejected-live", "snapshot-loaded-after-restart"]},
         }],
         "assumptions": [
+            "twin block (VerifC04Tampered field 8): the block store holds under another well-formed address a block that decodes to the genuine signed entry (as a non-canonical encoding would); a valid head links it through next or refs after the replicator has verified an honestly fetched entry",
             "the foreign chain is written by the remote writer or by the LOCAL replica's own identity (one instance uses one identity for all its databases)",
             "the tampered (re-addressed) entry is also delivered as an ancestor reached through REFS only, behind a next entry the replica already holds",
             "snapshot after a rejection (VerifC04SnapshotAfterReject): a tampered (payload, clock or signature) and re-addressed ancestor linked under a valid head is rejected by live replication but stays in the block store; the replica (with or without an own write) saves a snapshot, restarts and loads it into an empty store: the tampered entry is not merged on that route either",
@@ -305,10 +315,14 @@ CHECKS = {
             "pkg": ODB, "funcs": ["VerifC09LateJoin"],
             "covers": {"VerifC09LateJoin": ["peer-joined-B-after-announcements-of-A"]},
         }, {
+            "pkg": BS, "funcs": ["VerifC09Starved"],
+            "covers": {"VerifC09Starved": ["databases-stuck", "other-database-replicated"]},
+        }, {
             "pkg": ODB, "funcs": ["VerifC09SameRoot"],
             "covers": {"VerifC09SameRoot": ["exchanged-on-heal", "beta-closed"]},
         }],
         "assumptions": [
+            "starvation (VerifC09Starved): 1..D databases of the process are each handed 1, 33 or K heads whose parents no provider answers for (pending fetches for good); another database is then handed an ordinary head and must replicate it, announce it and show its own status; schedule-free path classes, no symbolic data",
             "shared manifest root (VerifC09SameRoot): /orbitdb/<root>/alpha and /orbitdb/<root>/beta (hand-formed address) open on two instances; alpha written behind a partition and exchanged on heal: alpha's entries reach alpha, beta stays empty with status 0/0; closing beta does not stop alpha's exchanges",
             "messages a store builds (VerifC09LateJoin): a peer opens database A, A is written 1..3 more times (announcements), then the peer opens database B: every publication and direct message carries only heads of the database it names",
             "repeated close (VerifC09CloseTwice): database A is closed twice / closed then dropped / dropped then closed while database B of the same instance stays open: a write to B still emits its write event, reaches the peer, B loads, B's status describes its log",
@@ -467,7 +481,7 @@ CHECKS = {
             "params": {"quick": {"T": 3, "P": 1}, "thorough": {"T": 5, "P": 1}},
             "max_paths": {"quick": 60000, "thorough": 600000},
             "timeout": {"quick": "10m", "thorough": "60m"},
-            "covers": {"VerifC15Load": ["loaded", "stale-remote-heads", "schedules-explored"]},
+            "covers": {"VerifC15Load": ["loaded", "stale-remote-heads", "schedules-explored", "merged-branches-one-head"]},
         }, {
             "pkg": BS, "funcs": ["VerifC15Sequence"],
             "params": {"quick": {"T": 4}, "thorough": {"T": 6}},
@@ -478,6 +492,7 @@ CHECKS = {
             "covers": {"VerifC15View": ["loaded-with-limit"]},
         }],
         "assumptions": [
+            "merged branches (VerifC15Load shape 3): two writers' concurrent branches merged by a later entry; a reader-only replica whose cache holds that single head (history longer than the head's Lamport time) is reloaded with every limit",
             "view after a limited load (VerifC15View, key-value store): two writers with T distinct keys each, local + remote cached heads, restart, Load(n) for n in 1..2T: min(n,total) entries in the log and All / Get equal the replay of exactly those",
             "load sequences on one open store (VerifC15Sequence): persisted single-writer log of T entries; Load(n), n in 1..T; then nothing, 1..2 local writes, or LoadMoreFrom of the older history; then Load(m), m in 1..held; exactly the m most recent held entries are visible in order (a later load with a limit LARGER than what the store holds is outside: the unchanged code fetches nothing below entries it already holds - observed, documented in DESIGN)",
             "persisted log built by real AddOperation calls (single-writer chain of T entries), by two writers with a real Sync (local + remote cached heads), or by replicating another writer's chain and then writing again (stale cached remote heads below a newer local head); then Close and a fresh store over the same cache and block store",
@@ -510,8 +525,14 @@ CHECKS = {
             "params": {"quick": {"W": 2, "P": 1}, "thorough": {"W": 3, "P": 1}},
             "max_paths": {"quick": 60000, "thorough": 400000},
             "covers": {"VerifC17Callbacks": ["callbacks-delivered"]},
+        }, {
+            "pkg": BS, "funcs": ["VerifC17CancelledWriter"],
+            "params": {"quick": {"W": 2, "P": 1}, "thorough": {"W": 3, "P": 1}},
+            "max_paths": {"quick": 60000, "thorough": 400000},
+            "covers": {"VerifC17CancelledWriter": ["written", "reloaded"]},
         }],
         "assumptions": [
+            "a cancelled writer (VerifC17CancelledWriter): W writers with live contexts, one writer whose context is cancelled by one more thread (while it is queued, while it appends, after it returned), every schedule of these W+2 threads with at most P preemptions: every call that returned success appended one distinct entry, in log and view, and after restart and load all of them are still there",
             "progress channels (VerifC17Callbacks): W concurrent writers each pass an unbuffered progress channel to AddOperation, one collector drains them in a fixed order, every schedule with at most P preemptions: every call returns, each channel gets its own call's entry, one distinct entry per call in log and view",
             "public API of the document store (VerifC17DocsConcurrent): a PutAll of two documents concurrent with another PutAll sharing one key, a Put or a Delete, every schedule with at most P preemptions: each call appended one distinct entry carrying exactly ITS documents, all are in the log, the documents equal the replay of the log",
             "W writer goroutines on one real BaseStore (InitBaseStore over stubs) calling the real AddOperation with the real ipfs-log Append; payloads symbolic",
@@ -536,7 +557,7 @@ CHECKS = {
             "cross_solvers": ["cvc5", "z3-new"], "pkg": DC, "funcs": ["VerifC20FrameRoundTrip", "VerifC12RawFrame", "VerifC20Factory"],
             "params": {"quick": {"L": 3, "B": 11}, "thorough": {"L": 6, "B": 12}},
             "flags": {"alloc-bound": 16},
-            "covers": {"VerifC20FrameRoundTrip": ["received"], "VerifC12RawFrame": ["handled"], "VerifC20Factory": ["delivered", "closed"]},
+            "covers": {"VerifC20FrameRoundTrip": ["received"], "VerifC12RawFrame": ["handled", "complete-frame", "incomplete-frame"], "VerifC20Factory": ["delivered", "closed"]},
         }, {
             "cross_solvers": ["cvc5", "z3-new"], "pkg": RAW, "funcs": ["VerifC20RawPeers", "VerifC20RawMessages", "VerifC20RawTopics"],
             "params": {"quick": {"E": 3, "P": 2, "M": 3}, "thorough": {"E": 5, "P": 3, "M": 5}},
@@ -551,6 +572,7 @@ CHECKS = {
             "covers": {"VerifC20AfterClose": ["calls-after-close-returned"]},
         }],
         "assumptions": [
+            "frame reference (VerifC12RawFrame): for every byte stream of up to B bytes, a payload is delivered if and only if the uvarint length prefix is well formed, within the limit and all announced bytes arrived before the stream ended; the payload is then exactly those bytes, attributed to the remote peer of the stream",
             "lifecycle of the pairwise channel object (VerifC20AfterClose): Connect, a payload delivered, Close, then any two of Connect / Send / Close: every call returns, nothing is delivered after Close, no monitor is left (the scripted subscription's Close makes a pending Next return, as the real one)",
             "membership: every sequence of S duplicate-free snapshots over P peers whose ids are symbolic pairwise-distinct strings, returned by a scripted coreiface PubSub().Peers()",
             "messages: M scripted messages, each from the local peer or a remote one, 1 symbolic byte body; the real WatchMessages / monitorTopic goroutines run in the interpreter",
@@ -568,7 +590,7 @@ CHECKS = {
             "cross_solvers": ["cvc5", "z3-new"], "pkg": DC, "funcs": ["VerifC12RawFrame"],
             "params": {"quick": {"B": 11}, "thorough": {"B": 12}},
             "flags": {"alloc-bound": 16},
-            "covers": {"VerifC12RawFrame": ["handled"]},
+            "covers": {"VerifC12RawFrame": ["handled", "complete-frame", "incomplete-frame"]},
         }, {
             "pkg": BS, "funcs": ["VerifC12Heads"],
             "params": {"quick": {"H": 1}, "thorough": {"H": 2}},
@@ -586,6 +608,7 @@ CHECKS = {
             "covers": {"VerifC12RepeatedHeads": ["one-head-repeated", "many-distinct-heads", "abusive-message-handled", "with-tampered-heads"]},
         }],
         "assumptions": [
+            "raw payload length (VerifSysMalformed): the raw-bytes message has every length 0..3 (a decision) and symbolic bytes",
             "an ILL-TYPED message that still carries well-formed head objects (a number where the address belongs, a head with next / refs links), followed by the honest relay whose head has no links: nothing of the first may stick to the decoding of the second",
             "the abusive message may also hold tampered copies (first / last / all of its heads): Sync still returns, nothing tampered is merged, later valid traffic is handled",
             "well-formed abusive heads messages (VerifC12RepeatedHeads): one genuine head listed R times, or R distinct genuine heads of one chain, in ONE message; Sync returns, each entry is merged once, a later valid message is handled",
@@ -726,6 +749,9 @@ CHECKS = {
             "max_paths": {"quick": 60000, "thorough": 400000},
             "covers": {"VerifC19Concurrent": ["concurrent"]},
         }, {
+            "pkg": BS, "funcs": ["VerifC19Refused"],
+            "covers": {"VerifC19Refused": ["announcement-refused", "nothing-fetched", "genuine-replicated"]},
+        }, {
             "pkg": ODB, "funcs": ["VerifSysTwoDBs"],
             "params": {"quick": {"N": 2}, "thorough": {"N": 3}},
             "covers": {"VerifSysTwoDBs": ["healed"]},
@@ -736,6 +762,7 @@ CHECKS = {
             "covers": {"VerifEngineSelfTest": ["self-tested"], "VerifEngineSelfTest2": ["self-tested"]},
         }],
         "assumptions": [
+            "refused announcement (VerifC19Refused): a genuine newer head and a copy whose content does not hash to its address in one Sync call, either order, after 0..2 replicated entries and an optional own write: nothing is fetched, the at-rest status clause still holds; the genuine head alone then replicates",
             "concurrent updates (VerifC19Concurrent): W local writes and the replication of a remote writer's two-entry chain (concurrent to, or continuing, the local history) run at the same time on one store, every schedule with at most P preemptions; progress and maximum are sampled when all calls have returned and at quiescence (never lower than before), and the at-rest clause is checked at quiescence (this harness found the lost-update race fixed in 011957e: 8 of 2091 schedules on the tree before the fix)",
             "history steps also include a Load on the OPEN store from its own disk (everything, or the 1..2 most recent entries); after a load that trimmed the log only the never-decrease clause is checked on that store (its log is no longer complete)",
             "inductive step: pre-state is ANY (progress, max, log length) with 0 <= progress <= max < 2^62, 0 <= length < 2^62; argument 0 <= x < 2^62",
